@@ -433,9 +433,10 @@ func (c *Call) updateLocations(goroot, localgoroot string, localgomods, gopaths 
 			return true
 		}
 	}
-	// Check GOPATH.
-	// TODO(maruel): Sort for deterministic behavior?
-	for prefix, dest := range gopaths {
+	// Check GOPATH. The most specific (longest) root is tried first so the result
+	// does not depend on the map iteration order when roots are nested.
+	for _, prefix := range keysLongestFirst(gopaths) {
+		dest := gopaths[prefix]
 		if p := prefix + "/src/"; strings.HasPrefix(c.RemoteSrcPath, p) {
 			c.RelSrcPath = c.RemoteSrcPath[len(p):]
 			c.LocalSrcPath = pathJoin(dest, "src", c.RelSrcPath)
@@ -463,7 +464,8 @@ func (c *Call) updateLocations(goroot, localgoroot string, localgomods, gopaths 
 	// Check Go modules.
 	// Go module path detection only works with stack traces created on the local
 	// file system.
-	for prefix, pkg := range localgomods {
+	for _, prefix := range keysLongestFirst(localgomods) {
+		pkg := localgomods[prefix]
 		if strings.HasPrefix(c.RemoteSrcPath, prefix+"/") {
 			c.RelSrcPath = c.RemoteSrcPath[len(prefix)+1:]
 			c.LocalSrcPath = c.RemoteSrcPath
@@ -864,6 +866,22 @@ func nameArguments(goroutines []*Goroutine) {
 		}
 		nextID++
 	}
+}
+
+// keysLongestFirst returns the keys of m, longest first, ties in alphabetical
+// order.
+func keysLongestFirst(m map[string]string) []string {
+	keys := make([]string, 0, len(m))
+	for k := range m {
+		keys = append(keys, k)
+	}
+	sort.Slice(keys, func(i, j int) bool {
+		if len(keys[i]) != len(keys[j]) {
+			return len(keys[i]) > len(keys[j])
+		}
+		return keys[i] < keys[j]
+	})
+	return keys
 }
 
 func pathJoin(s ...string) string {
